@@ -238,7 +238,8 @@ claim(
     "in Bin/SparselyBin._numpy is the expression under math.floor in the scalar index method up to commutativity of + and * only (same "
     "rounding); numpy.average over a batch is guarded by a test that implies a positive batch weight (linear forms over prior entries and "
     "batch weight); a Count child is handed the batch only once the batch length is known (the shared shape cell is modelled); every child "
-    "_numpy is handed the caller's data (or None for a pre-summed Count, or a row selection of it). One known "
+    "_numpy is handed the caller's data (or None for a pre-summed Count, or a row selection of it); every range test on the real-valued sparse "
+    "index in bin() has a counterpart on the float index in _numpy before the integer cast. One known "
     "finding (Sum masks NaN rows). NOT decided: equality of floating-point reductions, key creation order, negative weights.",
     "numpy/bisect library summaries (np.histogram edge conventions, np.unique partition, int64 cast of NaN/inf) are stated "
     "assumptions; every numpy operation used must be in the closed vocabulary (else ANALYSIS-ERROR).",
